@@ -171,4 +171,71 @@ theorem chain_examples :
     Chain.chain [actErrno ||| 1#32, actKillProcess, actAllow] = actKillProcess ∧
     Chain.chain [] = actAllow := by decide
 
+/-! ## The 16-bit length field of `sock_fprog`
+
+`LoadFilter` stores `uint16(len(program))`.  For a program of 65536 instructions or more the kernel is therefore shown
+only a prefix (`len mod 65536` instructions, possibly none).  The theorem says that no such prefix can be attached:
+whatever its length, the kernel's checker refuses it — the long form of the architecture jump (`ja jumpN`, third
+instruction, `jumpN ≥ 65532`) points far beyond any prefix the kernel would take (≤ 4096 instructions), and a prefix
+shorter than that jump does not end in a return.  So an oversize policy can only fail to load (C09), never install a
+truncated filter. -/
+
+theorem assemblePolicy_shape (A : ArchInfo) (ly : Layout) (p : Policy) (prog : List Instr)
+    (h : assemblePolicy (some A) ly p = .ok prog) : ∃ body, prog = policyProg A.archI body := by
+  unfold assemblePolicy at h
+  split at h
+  · cases h
+  · split at h
+    · cases h
+    · simp only at h
+      split at h
+      · cases h
+      · cases h
+        exact ⟨_, rfl⟩
+
+theorem policyProg_prefix_rejected (ar : ArchI) (body : List Instr) (k : Nat)
+    (hlen : 65536 ≤ (policyProg ar body).length) (hk : k ≤ 4096) :
+    kernelAccepts (((policyProg ar body).map encode).take k) = false := by
+  unfold policyProg at hlen ⊢
+  generalize x32Filter ar.x86 ++ body = rest at hlen ⊢
+  simp only at hlen ⊢
+  by_cases hshort : rest.length ≤ 255
+  · rw [if_pos hshort] at hlen
+    simp at hlen
+    omega
+  · rw [if_neg hshort] at hlen ⊢
+    simp only [List.cons_append, List.nil_append, List.length_cons] at hlen
+    simp only [List.cons_append, List.nil_append, List.map_cons]
+    match k, hk with
+    | 0, _ => simp [kernelAccepts]
+    | 1, _ => simp [kernelAccepts, lastIsRet, encode, opRetK, opLdAbsW]
+    | 2, _ => simp [kernelAccepts, lastIsRet, encode, opRetK, opJeqK]
+    | k+3, hk =>
+      simp only [List.take_succ_cons]
+      unfold kernelAccepts
+      have : allInsnOk (encode (Instr.ld 4) :: encode (Instr.jif Cond.eq ar.id 1 0) :: encode (Instr.ja rest.length) ::
+          List.take k (encode (Instr.ld 0) :: List.map encode rest)) = false := by
+        simp only [allInsnOk, Bool.and_eq_false_iff]
+        right; right; left
+        simp only [insnOk, encode, opJa, opLdAbsW, opRetK]
+        have hl : (List.take k (encode (Instr.ld 0) :: List.map encode rest)).length ≤ k := List.length_take_le _ _
+        simp
+        omega
+      simp [this]
+
+/-- **A wrapped length never installs a truncated filter**: for every accepted policy whose program has 65536
+    instructions or more, every prefix the kernel could be shown (any `k ≤ 4096`, in particular
+    `k = prog.length % 65536` when that is small) is refused by the kernel's checker. -/
+theorem wrapped_length_prefix_rejected (A : ArchInfo) (e : Endian) (p : Policy) (prog : List Instr)
+    (h : assemblePolicy (some A) (Layout.ofEndian e) p = .ok prog) (hlen : 65536 ≤ prog.length)
+    (k : Nat) (hk : k ≤ 4096) : kernelAccepts ((prog.map encode).take k) = false := by
+  obtain ⟨body, rfl⟩ := assemblePolicy_shape A _ p prog h
+  exact policyProg_prefix_rejected _ body k hlen hk
+
+/-- … and a prefix longer than 4096 instructions is refused for its length alone -/
+theorem long_prefix_rejected (raw : List RawInsn) (h : 4096 < raw.length) : kernelAccepts raw = false := by
+  unfold kernelAccepts
+  have : decide (raw.length ≤ 4096) = false := by simp; omega
+  simp [this]
+
 end C08
